@@ -439,22 +439,56 @@ func (cs *Case) relation(sp *spec) string {
 	return "1bit"
 }
 
-// vclass names the operand-value class that matters for a family.
-func (cs *Case) vclass(sp *spec, in []*big.Int) string {
+// vclass names the operand-value class (or, for dividers on the relation every
+// real caller uses, the error class) that matters for a family.  i is the
+// index of the wrong output, got/exp its observed and exact value.
+func (cs *Case) vclass(sp *spec, in []*big.Int, i int, got, exp *big.Int) string {
 	if cs.B == "NewSubtractor" || cs.B == "NewKoggeStoneSubtractor" {
 		if in[0].Cmp(in[1]) < 0 {
 			return "/x<y"
 		}
 		return "/x>=y"
 	}
-	if sp.family == "idiv" {
+	if sp.family != "udiv" && sp.family != "idiv" {
+		return ""
+	}
+	rel := cs.relation(sp)
+	if sp.family == "idiv" && strings.HasSuffix(rel, "wr>n") {
 		w := cs.signedWidth()
 		if in[0].Bit(w-1) != in[1].Bit(w-1) {
 			return "/negative-quotient"
 		}
 		return "/nonnegative-quotient"
 	}
-	return ""
+	if rel != "wx=wy,wr=n" {
+		return ""
+	}
+	// Error class: quotient off by k, remainder off by k*|divisor| (|k| <= 3).
+	half := new(big.Int).Lsh(big.NewInt(1), uint(cs.WR-1))
+	d := new(big.Int).Sub(got, exp)
+	if d.CmpAbs(half) > 0 {
+		if d.Sign() > 0 {
+			d.Sub(d, new(big.Int).Lsh(half, 1))
+		} else {
+			d.Add(d, new(big.Int).Lsh(half, 1))
+		}
+	}
+	isRem := cs.Mode == "mod" || (cs.Mode == "both" && i == 1)
+	if !isRem {
+		if d.CmpAbs(big.NewInt(3)) <= 0 {
+			return fmt.Sprintf("/q%+d", d.Int64())
+		}
+		return "/q-far-off"
+	}
+	b := in[1]
+	if sp.family == "idiv" {
+		b = new(big.Int).Abs(toSigned(b, cs.signedWidth()))
+	}
+	k, m := new(big.Int).QuoRem(d, b, new(big.Int))
+	if m.Sign() == 0 && k.CmpAbs(big.NewInt(3)) <= 0 {
+		return fmt.Sprintf("/r%+db", k.Int64())
+	}
+	return "/r-far-off"
 }
 
 func (cs *Case) sig(sp *spec, vclass, kind string) string {
@@ -732,7 +766,7 @@ func run(cs Case) ev.Outcome {
 		for i := range want {
 			exp := new(big.Int).Mod(want[i], masks[i])
 			if exp.Cmp(got[i]) != 0 {
-				fl.add(cs.sig(sp, cs.vclass(sp, in), "wrong"),
+				fl.add(cs.sig(sp, cs.vclass(sp, in, i, got[i], exp), "wrong"),
 					"%s: operands (%s): output %d = 0x%s, exact result mod 2^%d = 0x%s",
 					desc, hexes(in), i, got[i].Text(16), outW[i], exp.Text(16))
 				return
@@ -853,16 +887,25 @@ func run(cs Case) ev.Outcome {
 // ---------------------------------------------------------------------------
 // Generators.
 
-// Algorithm-switch widths: Karatsuba threshold table switches at 16-21, 37-41,
-// 71-78; Goldschmidt uses the ROM for n >= 4 (m = min(8, n-1)) and changes its
-// iteration count with n; 2^k and 2^k +/- 1.
-var switchWidths = []int{8, 9, 10, 15, 16, 17, 18, 19, 20, 21, 22, 23, 31, 32, 33,
-	36, 37, 38, 39, 40, 41, 42, 63, 64, 65, 70, 71, 72, 73, 78, 79, 127, 128, 129, 130}
+// Algorithm-switch widths: the Karatsuba threshold table switches at 16-21,
+// 37-41, 71-78; Goldschmidt uses the ROM for n >= 4 (m = min(8, n-1)) and
+// changes its iteration count with n; 2^k and 2^k +/- 1.  Groups are ordered
+// by cost: rapid biases towards the first ones.
+var switchGroups = [][]int{
+	{15, 16, 17, 18, 19, 20, 21, 22, 23},
+	{15, 16, 17, 18, 19, 20, 21, 22, 23},
+	{8, 9, 10},
+	{36, 37, 38, 39, 40, 41, 42},
+	{31, 32, 33},
+	{36, 37, 38, 39, 40, 41, 42},
+	{63, 64, 65},
+	{70, 71, 72, 73, 78, 79},
+	{127, 128, 129, 130},
+}
 
 // Widths for builders whose circuits grow quickly (Goldschmidt divider and
-// everything that dispatches to it, Wallace multiplier).
-var heavyWidths = []int{8, 9, 10, 15, 16, 17, 18, 21, 22, 24, 31, 32, 33, 40, 41}
-
+// everything that dispatches to it): 0.05 s at 16 bits, 0.3 s at 32, 1-3 s at
+// 64, 10-50 s at 130.
 func heavy(b string, gmw bool) bool {
 	switch b {
 	case "NewUDividerGoldschmidtFast":
@@ -873,21 +916,53 @@ func heavy(b string, gmw bool) bool {
 	return false
 }
 
+// pick draws a categorical choice in [0, n).  rapid's integer generators are
+// strongly biased towards small values (good for widths and operands, where
+// small is simple), which would distort categorical choices: the first builder
+// of a list got 42% of the cases.  The raw draw is therefore mixed
+// (splitmix64 finaliser, a bijection) before it is reduced.
+func pick(t *rapid.T, label string, n int) int {
+	z := rapid.Uint64().Draw(t, label) + 0x9e3779b97f4a7c15
+	z = (z ^ (z >> 30)) * 0xbf58476d1ce4e5b9
+	z = (z ^ (z >> 27)) * 0x94d049bb133111eb
+	z ^= z >> 31
+	return int(z % uint64(n))
+}
+
+func pickFrom[T any](t *rapid.T, label string, xs []T) T {
+	return xs[pick(t, label, len(xs))]
+}
+
+func drawHeavyWidth(t *rapid.T, label string) int {
+	j := pick(t, label+"-heavy", 200)
+	switch {
+	case j < 150:
+		return pickFrom(t, label, []int{8, 9, 10, 15, 16, 17, 18, 21, 22, 24})
+	case j < 188:
+		return pickFrom(t, label, []int{31, 32, 33})
+	case j < 196:
+		return pickFrom(t, label, []int{40, 41})
+	case j < 199:
+		return pickFrom(t, label, []int{63, 64, 65})
+	}
+	if ev.Get(prop).Thorough() {
+		return pickFrom(t, label, []int{127, 128, 129, 130})
+	}
+	return 64
+}
+
 func drawWidth(t *rapid.T, label string, hv bool) int {
 	// Low draws (rapid's bias) select the algorithm-switch table.
-	k := rapid.IntRange(0, 99).Draw(t, label+"-kind")
+	k := pick(t, label+"-kind", 100)
 	switch {
 	case k < 55:
 		if hv {
-			if k < 4 {
-				return rapid.SampledFrom([]int{63, 64, 65}).Draw(t, label)
-			}
-			return rapid.SampledFrom(heavyWidths).Draw(t, label)
+			return drawHeavyWidth(t, label)
 		}
-		return rapid.SampledFrom(switchWidths).Draw(t, label)
+		return pickFrom(t, label, pickFrom(t, label+"-group", switchGroups))
 	case k < 75:
 		if hv {
-			return rapid.IntRange(1, 48).Draw(t, label)
+			return rapid.IntRange(1, 33).Draw(t, label)
 		}
 		return rapid.IntRange(1, 130).Draw(t, label)
 	}
@@ -896,7 +971,7 @@ func drawWidth(t *rapid.T, label string, hv bool) int {
 
 func drawValue(t *rapid.T, w int, label string) *big.Int {
 	one := big.NewInt(1)
-	k := rapid.IntRange(0, 11).Draw(t, label+"-kind")
+	k := pick(t, label+"-kind", 12)
 	switch k {
 	case 0:
 		return big.NewInt(0)
@@ -935,10 +1010,9 @@ var builderWeights = []struct {
 	id string
 	n  int
 }{
-	// rapid biases draws towards low indices: the deepest builders come first.
-	{"NewIDivider", 7}, {"NewUDivider", 6}, {"NewMultiplier", 8}, {"NewKaratsubaMultiplier", 6},
-	{"NewUDividerGoldschmidtFast", 4}, {"NewWallaceMultiplier", 3}, {"NewArrayMultiplier", 3},
-	{"NewSubtractor", 4}, {"NewKoggeStoneSubtractor", 3}, {"NewAdder", 4}, {"NewKoggeStoneAdder", 3},
+	{"NewMultiplier", 8}, {"NewKaratsubaMultiplier", 6}, {"NewIDivider", 6}, {"NewUDivider", 5},
+	{"NewSubtractor", 4}, {"NewKoggeStoneSubtractor", 3}, {"NewWallaceMultiplier", 3}, {"NewArrayMultiplier", 3},
+	{"NewUDividerGoldschmidtFast", 3}, {"NewAdder", 4}, {"NewKoggeStoneAdder", 3},
 	{"NewUDividerLong", 2}, {"NewUDividerRestoring", 2}, {"NewUDividerArray", 2},
 	{"Hamming", 3}, {"NewIndex", 4}, {"NewMUX", 3},
 	{"NewIntLtComparator", 2}, {"NewIntLeComparator", 2}, {"NewIntGtComparator", 2}, {"NewIntGeComparator", 2},
@@ -960,20 +1034,20 @@ func init() {
 
 func genCase(t *rapid.T) Case {
 	var cs Case
-	cs.B = rapid.SampledFrom(weightedBuilders).Draw(t, "builder")
+	cs.B = pickFrom(t, "builder", weightedBuilders)
 	sp := specs[cs.B]
 	cs.GMW = rapid.Bool().Draw(t, "gmw")
-	cs.Prune = rapid.IntRange(0, 3).Draw(t, "prune") == 0
+	cs.Prune = pick(t, "prune", 4) == 0
 	hv := heavy(cs.B, cs.GMW)
 
 	twoWidths := func() (int, int) {
 		wx := drawWidth(t, "wx", hv)
-		k := rapid.IntRange(0, 99).Draw(t, "wy-rel")
+		k := pick(t, "wy-rel", 100)
 		switch {
 		case k < 30:
 			return wx, drawWidth(t, "wy", hv)
 		case k < 50: // the other operand is an untyped constant: int32/int64
-			c := rapid.SampledFrom([]int{32, 32, 64}).Draw(t, "const-width")
+			c := pickFrom(t, "const-width", []int{32, 32, 64})
 			if k < 40 {
 				return wx, c
 			}
@@ -983,7 +1057,7 @@ func genCase(t *rapid.T) Case {
 	}
 	resultWidth := func(wx, wy int) int {
 		mn, mx := imin(wx, wy), imax(wx, wy)
-		switch rapid.IntRange(0, 9).Draw(t, "wr-kind") {
+		switch pick(t, "wr-kind", 10) {
 		case 0:
 			return mn
 		case 1, 2, 3:
@@ -1005,18 +1079,18 @@ func genCase(t *rapid.T) Case {
 		cs.WR = resultWidth(wx, wy)
 		switch cs.B {
 		case "NewMultiplier":
-			cs.P = rapid.SampledFrom([]int{0, 0, 8, 9, 16, 21}).Draw(t, "threshold")
+			cs.P = pickFrom(t, "threshold", []int{0, 0, 8, 9, 16, 21})
 		case "NewKaratsubaMultiplier":
-			cs.P = rapid.SampledFrom([]int{4, 8, 9, 10, 11, 12, 16, 19, 21}).Draw(t, "limit")
+			cs.P = pickFrom(t, "limit", []int{4, 8, 9, 10, 11, 12, 16, 19, 21})
 		}
 	case "udiv", "idiv":
 		wx, wy := twoWidths()
 		cs.W = []int{wx, wy}
-		cs.Mode = rapid.SampledFrom([]string{"div", "div", "mod", "mod", "both"}).Draw(t, "mode")
+		cs.Mode = pickFrom(t, "mode", []string{"div", "div", "mod", "mod", "both"})
 		// Real callers pass a result as wide as one of the operands; other
 		// result widths are drawn less often.
-		if rapid.IntRange(0, 9).Draw(t, "wr-real") < 7 {
-			cs.WR = rapid.SampledFrom([]int{wx, wy, imax(wx, wy)}).Draw(t, "wr")
+		if pick(t, "wr-real", 10) < 7 {
+			cs.WR = pickFrom(t, "wr", []int{wx, wy, imax(wx, wy)})
 		} else {
 			cs.WR = resultWidth(wx, wy)
 		}
@@ -1037,9 +1111,9 @@ func genCase(t *rapid.T) Case {
 		cs.W = []int{1, wt, wf}
 		cs.WR = imax(wt, wf)
 	case "index":
-		size := rapid.SampledFrom([]int{1, 2, 3, 7, 8, 9, 32, 33}).Draw(t, "size")
+		size := pickFrom(t, "size", []int{1, 2, 3, 7, 8, 9, 32, 33})
 		n := rapid.IntRange(1, 17).Draw(t, "n")
-		iw := rapid.SampledFrom([]int{1, 2, 3, 4, 5, 6, 8, 32, 64, 70}).Draw(t, "index-width")
+		iw := pickFrom(t, "index-width", []int{1, 2, 3, 4, 5, 6, 8, 32, 64, 70})
 		cs.W = []int{n * size, iw}
 		cs.P = size
 		cs.WR = size
@@ -1050,6 +1124,25 @@ func genCase(t *rapid.T) Case {
 		var tuple []string
 		for j, w := range cs.W {
 			v := drawValue(t, w, fmt.Sprintf("v%d", j))
+			if (sp.family == "udiv" || sp.family == "idiv") && i%3 == 1 {
+				// Largest quotients: dividend near 2^w (or near the most
+				// positive signed value), small divisor.  Reciprocal based
+				// dividers are most sensitive here.
+				if j == 0 {
+					top := w
+					if sp.family == "idiv" && pick(t, "v0-positive", 2) == 0 {
+						top = imax(cs.W[0], cs.W[1]) - 1
+					}
+					v.Lsh(big.NewInt(1), uint(imin(top, w)))
+					v.Sub(v, big.NewInt(int64(1+rapid.IntRange(0, 3).Draw(t, "v0-near"))))
+					if v.Sign() < 0 {
+						v.SetInt64(0)
+					}
+				} else {
+					v.SetInt64(int64(rapid.IntRange(1, 5000).Draw(t, "v1-small")))
+					v.And(v, new(big.Int).Sub(new(big.Int).Lsh(big.NewInt(1), uint(w)), big.NewInt(1)))
+				}
+			}
 			if (sp.family == "udiv" || sp.family == "idiv") && j == 1 && v.Sign() == 0 {
 				v.SetInt64(1) // divisor is never zero (constructive, no rejection)
 			}
@@ -1076,6 +1169,7 @@ func TestBuilders(t *testing.T) {
 func TestExhaustive(t *testing.T) {
 	col := ev.Get(prop)
 	maxW := col.N(5, 7)
+	deepW := maxW + 3
 	shard, nshards := ev.Shard()
 	idx := 0
 	ev.Each(t, col, "builders", func(yield func(Case) bool) {
@@ -1152,7 +1246,44 @@ func TestExhaustive(t *testing.T) {
 				}
 			}
 		}
+		// Deep part: the width relation every real caller uses (equal operand
+		// widths, result as wide as the operands; also 2n for multipliers and
+		// n+1 for adders) for wider operands, all values.  The Goldschmidt
+		// divider (and what dispatches to it) goes one bit further.
+		for n := maxW + 1; n <= deepW+1; n++ {
+			for _, id := range specOrder {
+				sp := specs[id]
+				for _, gmw := range []bool{false, true} {
+					if n > deepW && !heavy(id, gmw) {
+						continue
+					}
+					cs := Case{B: id, GMW: gmw, Prune: idx%2 == 0, W: []int{n, n}, WR: n}
+					switch sp.family {
+					case "addsub":
+						emit(cs)
+						cs.WR = n + 1
+						emit(cs)
+					case "mul":
+						if id == "NewKaratsubaMultiplier" {
+							cs.P = 4
+						}
+						emit(cs)
+						cs.WR = 2 * n
+						emit(cs)
+					case "bin":
+						emit(cs)
+					case "udiv", "idiv":
+						cs.Mode = "both"
+						emit(cs)
+					case "ucmp", "icmp":
+						cs.WR = 1
+						emit(cs)
+					}
+				}
+			}
+		}
 	}, run)
+	col.Note("deep exhaustive sub-run: two-operand builders x {Yao,GMW} x equal operand widths %d..%d (Goldschmidt based dividers ..%d) x result width n (n+1 for adders/subtractors, 2n for multipliers as well) x all operand values", maxW+1, deepW, deepW+1)
 	col.Note("exhaustive sub-run: every builder x {Yao,GMW} x all operand width pairs <= %d bits x every result width 1..2*max+3 (fixed result width for comparators, mux, index, bit tests) x all operand values", maxW)
 }
 
